@@ -138,7 +138,11 @@ class Tally(object):
         self.evaluations += 1
         for l in ctx.labels:
             self.labels[l] += 1
+        seen = set()
         for sig, msg in ctx.known_hits:
+            if sig in seen:
+                continue
+            seen.add(sig)
             k = self.known.setdefault(sig, {"count": 0, "example": msg})
             k["count"] += 1
         if ctx.is_nontrivial:
